@@ -4,8 +4,8 @@ from harness import extract as _extract
 
 PROP = 'C02'
 DRIVER = 'Ctl'
-LEAN_TARGETS = ['TxV.Props.C02']
-PROP_MODULES = ['TxV.Props.C02']
+LEAN_TARGETS = ['TxV.Props.C02', 'TxV.Props.C02b']
+PROP_MODULES = ['TxV.Props.C02', 'TxV.Props.C02b']
 AUDIT = 'Audit/C02.lean'
 ANCHORS = ['txtorcon/torcontrolprotocol.py']
 RULE = ('C01 sessions with 6xx events in the three wire forms (single line with/without payload, multi-line, data block) for '
